@@ -27,7 +27,7 @@ from openjd.model import (  # noqa: E402
 
 NAMES = ["A", "B", "C_1", "Dd", "_e", "F", "G7", "H", "Ii", "J", "K", "L_", "M", "N0", "O", "P", "Q", "R"]
 MAX_TOTAL = 400          # cap on len() of a generated space
-WORDS = ["x", "y z", "été", "q-1", "日本", "a,b", "(p)", "w*", "0", "-1", "1.50", "{r}", "T t"]
+WORDS = ["x", "", "", "y z", "été", "q-1", "日本", "a,b", "(p)", "w*", "0", "-1", "1.50", "{r}", "T t"]
 PATHS = ["/a/b", "rel/x", "c:\\d", "../up", "/tmp/é", ".", "/"]
 
 
@@ -233,7 +233,7 @@ def gen_leaf(rng, name, L, kind=None):
         pool = [1.5, "2", 3, -0.25, "1e3", "0.10", 7, "-4", 2.0, "12.125"]
         return {"name": name, "type": "FLOAT", "range": [rng.choice(pool) for _ in range(L)]}
     if kind == "PATH":
-        return {"name": name, "type": "PATH", "range": [rng.choice(PATHS) + (str(i) if rng.random() < 0.7 else "") for i in range(L)]}
+        return {"name": name, "type": "PATH", "range": [("" if rng.random() < 0.08 else rng.choice(PATHS) + (str(i) if rng.random() < 0.7 else "")) for i in range(L)]}
     return {"name": name, "type": "STRING", "range": [(f"{name}{i}" if rng.random() < 0.6 else rng.choice(WORDS)) for i in range(L)]}
 
 
